@@ -39,6 +39,10 @@ def x86_operand(draw, first):
             st.integers(-2 ** 40, 2 ** 40), st.integers(-2 ** 63, 2 ** 64 - 1)))
         return ["imm", v], "$" + draw(num_text(v))
     if k == "id":
+        if draw(st.integers(0, 3)) == 0:
+            # reference to a numeric local label: the operand is label N, the suffix gives the search direction
+            n_ = draw(st.sampled_from(["1", "2", "42", "7"]))
+            return ["id", n_], n_ + draw(st.sampled_from(["b", "f"]))
         lab = draw(st.sampled_from(X86_LABELS))
         return ["id", lab], lab
     hb, hi, hd = draw(st.booleans()), draw(st.booleans()), draw(st.booleans())
